@@ -359,6 +359,192 @@ Proof.
   repeat split; reflexivity.
 Qed.
 
+(* ------------------------------------------------------------------ one step of the interpreter
+   [dstep] is the body of [RE.drive] with the recursive call returned instead of made
+   (lemma [drive_dstep] below: a change of [drive] breaks that lemma, nothing else). *)
+Local Notation set_ghost := (RE.set_ghost P D).
+Local Notation set_stashed := (RE.set_stashed P D).
+Local Notation set_permit := (RE.set_permit P D).
+Local Notation set_pc := (RE.set_pc P D).
+Local Notation set_blocking := (RE.set_blocking P D).
+Local Notation set_resps := (RE.set_resps P D).
+Local Notation set_exc_slot := (RE.set_exc_slot P D).
+Local Notation exc_slot := (RE.exc_slot P D).
+Local Notation replace_top := (RE.replace_top P D).
+Local Notation pop_plan := (RE.pop_plan P D).
+Local Notation set_seen := (RE.set_seen P D).
+Local Notation seen := (RE.seen P D).
+Local Notation rewindable := (RE.rewindable P D).
+Local Notation set_cache := (RE.set_cache P D).
+Local Notation set_exit := (RE.set_exit P D).
+Local Notation reason := (RE.reason P D).
+Local Notation set_ers := (RE.set_ers P D).
+Local Notation frame_resume := (RE.frame_resume P presume).
+
+Definition dstep (s : st) (c : ctl) (os : list obs) : (st * ctl * list obs) + (st * list obs) :=
+  let go := fun (a : st) (b : ctl) (o : list obs) => @inl (st * ctl * list obs) (st * list obs) (a, b, o) in
+    match c with
+    | CTop =>
+        if (rstate_eqb (state s) Pausing || rstate_eqb (state s) Suspending) && negb (resumable s) then
+          let s1 := set_ghost (set_stashed (set_permit s true) (Some EFailedPause)) (Some CzFailedPause) (late_pause s) (intr_err s) in
+          match set_state s1 Aborting with
+          | Some (s2, o) => go s2 CTop (os ++ o)
+          | None => go s1 (CExit (XExn ETransition)) os
+          end
+        else
+          let r1 := if rstate_eqb (state s) Suspending then set_state s Running else Some (s, []) in
+          match r1 with
+          | None => go s (CExit (XExn ETransition)) os
+          | Some (s1, o1) =>
+              if negb (permit s1) then
+                if negb (rstate_eqb (state s1) Pausing) then go s1 (CExit (XExn EAssertion)) (os ++ o1)
+                else
+                  let '(s2, o2) := stop_movables s1 in
+                  let '(s3, e, o3) := call_pausables s2 MPause in
+                  match e with
+                  | Some x => go s3 (CExit (XExn x)) (os ++ o1 ++ o2 ++ o3)
+                  | None =>
+                      match set_state s3 Paused with
+                      | None => go s3 (CExit (XExn ETransition)) (os ++ o1 ++ o2 ++ o3)
+                      | Some (s4, o4) => inr (set_pc (set_blocking s4 true) PcPaused, os ++ o1 ++ o2 ++ o3 ++ o4 ++ [OTask WFuture])
+                      end
+                  end
+              else go s1 CBody (os ++ o1)
+          end
+    | CBody =>
+        if negb (Nat.eqb (List.length (resps s)) (List.length (plans s))) then go s (CExit (XExn EAssertion)) os
+        else match stashed s with
+             | None => inr (set_pc s PcSleep0, os ++ [OTask WSleep0])
+             | Some _ => go s CAfterSleep os
+             end
+    | CAfterSleep =>
+        match resps s, plans s with
+        | r :: rest, top :: _ =>
+            let s1 := set_resps s rest in
+            let s2 := match exc_slot s1 with
+                      | Some e => set_exc_slot (set_stashed s1 (Some e)) None
+                      | None => s1
+                      end in
+            let thrown := match stashed s2, r with
+                          | Some e, _ => Some e
+                          | None, RExn e => Some e
+                          | None, RVal _ => None
+                          end in
+            match thrown with
+            | Some e =>
+                let '(o, po) := frame_resume top (Throw e) in
+                match o with
+                | Yielded m f' => go (set_stashed (replace_top s2 f') None) (CProcess m) (os ++ po)
+                | Returned v =>
+                    let s3 := pop_plan s2 in
+                    match plans s3 with
+                    | [] => go s3 (CExit (XRet v)) (os ++ po)
+                    | _ => go (set_stashed s3 (Some EStopIteration)) (CContinue false (RVal VNone)) (os ++ po)
+                    end
+                | Raised e' =>
+                    if is_Exception e' then
+                      let s3 := pop_plan s2 in
+                      match plans s3 with
+                      | [] => go s3 (CExit (XExn e')) (os ++ po)
+                      | _ => go (set_stashed s3 (Some e')) (CContinue false (RVal VNone)) (os ++ po)
+                      end
+                    else
+                      match e' with
+                      | ECancelled => go s2 (CCancelled true) (os ++ po)
+                      | _ => go (set_resps (replace_top s2 (FList [])) (RVal VNone :: resps s2)) (CExit (XExn e')) (os ++ po)
+                      end
+                end
+            | None =>
+                let v := match r with RVal v => v | RExn _ => VNone end in
+                let '(o, po) := frame_resume top (Send v) in
+                match o with
+                | Yielded m f' => go (replace_top s2 f') (CProcess m) (os ++ po)
+                | Returned v' =>
+                    let s3 := pop_plan s2 in
+                    match plans s3 with
+                    | [] => go s3 (CExit (XRet v')) (os ++ po)
+                    | _ => go s3 (CContinue false (RVal VNone)) (os ++ po)
+                    end
+                | Raised e' =>
+                    if is_Exception e' then
+                      let s3 := pop_plan s2 in
+                      match plans s3 with
+                      | [] => go s3 (CExit (XExn e')) (os ++ po)
+                      | _ => go (set_stashed s3 (Some e')) (CContinue false (RVal VNone)) (os ++ po)
+                      end
+                    else
+                      match e' with
+                      | ECancelled => go s2 (CCancelled true) (os ++ po)
+                      | _ => go (set_resps (replace_top s2 (FList [])) (RVal VNone :: resps s2)) (CExit (XExn e')) (os ++ po)
+                      end
+                end
+            end
+        | _, _ => go s (CExit (XExn EOther)) (os ++ [OBad 2])
+        end
+    | CProcess m =>
+        let o0 := [OMsg m] in
+        let s1 := match mobj m with Some d => set_seen s (insert_sorted d (seen s)) | None => s end in
+        let s2 := match cache s1 with
+                  | Some l => if rewindable s1 && cacheable (mcmd m) then set_cache s1 (Some (l ++ [m])) else s1
+                  | None => s1
+                  end in
+        let '(s3, cr, o3) := match mcmd m with
+                             | CStartSuspender sid pre post => exec_start_suspender s2 sid pre post
+                             | _ => exec_cmd s2 m
+                             end in
+        match cr with
+        | Done r => go s3 (CContinue true r)
+                          (os ++ o0 ++ o3 ++ match mcmd m with CUnknown => [] | _ => [OResp r] end)
+        | Susp k => inr (set_pc s3 (PcCmd k), os ++ o0 ++ o3 ++ [OTask WFuture])
+        end
+    | CContinue popped r =>
+        go (if popped then set_resps s (r :: resps s) else s) CTop os
+    | CCancelled popped =>
+        match state s with
+        | Pausing => go (set_permit s false) (CContinue popped (RVal VNone)) os
+        | Halting => go (match stashed s with None => set_stashed s (Some EPlanHalt) | _ => s end) (CContinue popped (RVal VNone)) os
+        | Stopping => go (match stashed s with None => set_stashed s (Some ERequestStop) | _ => s end) (CContinue popped (RVal VNone)) os
+        | Aborting => go (match stashed s with None => set_stashed s (Some ERequestAbort) | _ => s end) (CContinue popped (RVal VNone)) os
+        | Suspending => go s (CContinue popped (RVal VNone)) os
+        | _ =>
+            match stashed s with
+            | Some ECancelled => go (if popped then set_resps s (RVal VNone :: resps s) else s) (CExit (XExn ECancelled)) os
+            | Some _ => go s (CContinue popped (RVal VNone)) os
+            | None => go (set_stashed s (Some ECancelled)) (CContinue popped (RVal VNone)) os
+            end
+        end
+    | CExit x =>
+        match x with
+        | XRet v => inr (set_pc (set_exit s XSuccess (reason s)) (PcFinalSleep (TReturn v)), os ++ [OTask WSleep0])
+        | XExn ERequestStop => inr (set_pc (set_exit s XSuccess (reason s)) (PcFinalSleep (TReturn NO_RETURN)), os ++ [OTask WSleep0])
+        | XExn (EFailedPause | ERequestAbort | ECancelled | EPlanHalt) =>
+            inr (set_pc (set_exit s XAbort (reason s)) (PcFinalSleep (TReturn NO_RETURN)), os ++ [OTask WSleep0])
+        | XExn EGeneratorExit => go (set_exit s XFail (reason s)) (CFinalize (TReturn NO_RETURN) (Some EValueError)) os
+        | XExn e => go (set_ers (set_exit s XFail (reason s)) true) (CFinalize (TReturn NO_RETURN) (Some e)) os
+        end
+    | CFinalize r pending =>
+        let '(s1, o) := finalize s r pending in inr (s1, os ++ o)
+    end.
+
+Ltac break_goal :=
+  match goal with
+  | |- context [match ?x with _ => _ end] =>
+      lazymatch x with
+      | context [match _ with _ => _ end] => fail
+      | _ => destruct x eqn:?
+      end
+  end.
+
+Lemma drive_dstep fuel s c os :
+  drive (S fuel) s c os =
+  match dstep s c os with
+  | inl (s1, c1, os1) => drive fuel s1 c1 os1
+  | inr r => r
+  end.
+Proof.
+  destruct c; cbn [RE.drive dstep]; repeat break_goal; reflexivity.
+Qed.
+
 (* ================================================================== the invariant *)
 Definition pc_state_ok (p : pcs) (x : rstate) : bool :=
   match p with
@@ -525,23 +711,29 @@ Ltac norm :=
          | H : Some _ = Some _ |- _ => inversion H; subst; clear H
          | H : (_, _) = (_, _) |- _ => inversion H; subst; clear H
          end.
-Ltac leaf IH :=
-  norm; frames;
-  first [ match goal with H : drive _ _ _ _ = _ |- _ => eapply IH; [|exact H]; clear IH H end
-        | clear IH; left ];
-  fin.
+Ltac dleaf :=
+  norm;
+  repeat match goal with
+         | H : inl _ = ?r |- _ => is_var r; subst r
+         | H : inr _ = ?r |- _ => is_var r; subst r
+         end;
+  frames; cbv beta iota; fin.
 
-Lemma drive_inv fuel : forall s c os s' o,
-  DInv c s -> drive fuel s c os = (s', o) -> Inv s' \/ OOF s' o.
+Definition dstep_post (res : (st * ctl * list obs) + (st * list obs)) : Prop :=
+  match res with
+  | inl (s1, c1, _) => DInv c1 s1
+  | inr (s', _) => Inv s'
+  end.
+
+(* one interpreter step: the next configuration satisfies the interpreter invariant, a
+   suspension point satisfies the await-point invariant *)
+Lemma dstep_inv s c os res : DInv c s -> dstep s c os = res -> dstep_post res.
 Proof.
-  induction fuel as [|fuel IH]; intros s c os s' o HD H; cbn [RE.drive] in H.
-  { inversion H; subst. right. unfold OOF. simp_st. destruct HD as (D1 & _).
-    repeat split; [ intros E; rewrite E in D1; discriminate D1 | apply in_or_app; right; left; reflexivity ]. }
-  destruct c.
+  intros HD H. unfold dstep_post. destruct c; cbn [dstep] in H.
   2:{ (* CBody *)
-      repeat (bm_hyp H); leaf IH. }
+      repeat (bm_hyp H); dleaf. }
   { (* CTop *)
-    eqb_cases H; repeat (bm_hyp H); try (ev_eqb_in H); leaf IH.
+    eqb_cases H; repeat (bm_hyp H); try (ev_eqb_in H); dleaf.
     match goal with
     | Hh : forall x, Some ?e = Some x -> hook_raises MPause x |- _ =>
         destruct (ctl_exn e) eqn:Ec;
@@ -549,7 +741,7 @@ Proof.
         | right; intros; reflexivity ]
     end. }
   { (* CAfterSleep *)
-    repeat (bm_hyp H); leaf IH.
+    repeat (bm_hyp H); dleaf.
     match goal with
     | H : match stashed ?s with _ => _ end = None |- _ => destruct (stashed s); [discriminate H | reflexivity]
     end. }
@@ -574,70 +766,172 @@ Proof.
       - left. eapply exec_start_suspender_spec. exact Ex. }
     clear Ex.
     destruct Hc as [[Hc|[f Hc]]|[[e Hc] [r Hr]]].
-    1,2: destruct cr; leaf IH.
-    subst cr. unfold pause_acc in Hc. leaf IH.
+    1,2: destruct cr; dleaf.
+    subst cr. unfold pause_acc in Hc. dleaf.
     destruct (pc s); simp_fn; try discriminate; fin0. }
-  { (* CContinue *) destruct popped; leaf IH. }
+  { (* CContinue *) destruct popped; dleaf. }
   { (* CCancelled *)
-    repeat (bm_hyp H); leaf IH.
+    repeat (bm_hyp H); dleaf.
     destruct (must_cancel s); norm_imp; fin0. }
   { (* CExit *)
-    repeat (bm_hyp H); leaf IH. }
+    repeat (bm_hyp H); dleaf. }
   { (* CFinalize *)
-    destruct (finalize s r pending) as [s1 o1] eqn:Ef. inversion H; subst; clear H IH.
+    destruct (finalize s r pending) as [s1 o1] eqn:Ef. subst res. cbv beta iota.
     apply finalize_spec in Ef; [|apply allowed_to_idle; left; apply HD].
-    left. unfold final_res in Ef. fin.
+    unfold final_res in Ef. fin.
     destruct pending as [e|]; [destruct e|]; simp_fn; fin0. }
 Qed.
 
-Ltac tleaf :=
-  norm; frames;
-  first [ match goal with H : drive _ _ _ _ = _ |- _ => eapply drive_inv; [|exact H]; clear H end
-        | left ];
-  fin.
-
-Lemma task_step_inv s s' o : Inv s -> task_step s = (s', o) -> Inv s' \/ OOF s' o.
+Lemma drive_inv fuel : forall s c os s' o,
+  DInv c s -> drive fuel s c os = (s', o) -> Inv s' \/ OOF s' o.
 Proof.
-  intros HI H. unfold RE.task_step in H.
+  induction fuel as [|fuel IH]; intros s c os s' o HD H.
+  { cbn [RE.drive] in H. inversion H; subst. right. unfold OOF. simp_st. destruct HD as (D1 & _).
+    repeat split; [ intros E; rewrite E in D1; discriminate D1 | apply in_or_app; right; left; reflexivity ]. }
+  rewrite drive_dstep in H. pose proof (dstep_inv s c os _ HD eq_refl) as Hp.
+  destruct (dstep s c os) as [[[s1 c1] os1]|[s2 o2]]; cbn [dstep_post] in Hp.
+  - eapply IH; eassumption.
+  - inversion H; subst. left; exact Hp.
+Qed.
+
+(* the configurations [drive] goes through *)
+Inductive dreach : st * ctl * list obs -> st * ctl * list obs -> Prop :=
+  | dreach_refl cfg : dreach cfg cfg
+  | dreach_step s c os cfg1 cfg2 : dstep s c os = inl cfg1 -> dreach cfg1 cfg2 -> dreach (s, c, os) cfg2.
+
+Lemma dreach_DInv cfg1 cfg2 :
+  dreach cfg1 cfg2 -> DInv (snd (fst cfg1)) (fst (fst cfg1)) -> DInv (snd (fst cfg2)) (fst (fst cfg2)).
+Proof.
+  induction 1 as [cfg | s c os [[s1 c1] os1] cfg2 Hst _ IH]; intros HD; [exact HD|].
+  apply IH. cbn [fst snd] in *. exact (dstep_inv s c os _ HD Hst).
+Qed.
+
+(* ------------------------------------------------------------------ one step of the task
+   [tentry] is [RE.task_step] with the call of [drive] returned instead of made. *)
+Local Notation set_must_cancel := (RE.set_must_cancel P D).
+Local Notation exit_status := (RE.exit_status P D).
+Local Notation finish_read := (RE.finish_read P D).
+Local Notation mark_cached := (RE.mark_cached P D).
+Local Notation all_resolved := (RE.all_resolved P D).
+Local Notation all_released := (RE.all_released P D).
+Local Notation FUEL := (RE.FUEL P D).
+
+Definition tentry (s : st) : (st * ctl * list obs) + (st * list obs) :=
+  let go := fun (a : st) (b : ctl) (o : list obs) => @inl (st * ctl * list obs) (st * list obs) (a, b, o) in
+  let cancelled := must_cancel s in
+  let s0 := set_must_cancel s false in
+  match pc s with
+  | PcNone | PcDone _ => inr (s, [OBad 3])
+  | PcNotStarted =>
+      if cancelled then inr (set_blocking (set_pc s0 (PcDone (TRaise ECancelled))) true, [OTask (WRaise ECancelled)])
+      else if permit s0 then
+        let s1 := set_exit (set_stashed s0 None) (exit_status s0) RsEmpty in
+        match set_state s1 Running with
+        | Some (s2, o) => go s2 CTop o
+        | None => go s1 (CExit (XExn ETransition)) []
+        end
+      else inr (set_pc s0 PcPermit0, [OTask WFuture])
+  | PcPermit0 =>
+      if cancelled then inr (set_blocking (set_pc s0 (PcDone (TRaise ECancelled))) true, [OTask (WRaise ECancelled)])
+      else
+        let s1 := set_exit (set_stashed s0 None) (exit_status s0) RsEmpty in
+        match set_state s1 Running with
+        | Some (s2, o) => go s2 CTop (if permit s0 then o else OBad 4 :: o)
+        | None => go s1 (CExit (XExn ETransition)) []
+        end
+  | PcSleep0 =>
+      if cancelled then go s0 (CCancelled false) [] else go s0 CAfterSleep []
+  | PcPaused =>
+      if cancelled then go s0 (CExit (XExn ECancelled)) []
+      else if negb (permit s0) then inr (s, [OBad 5])      (* not enabled: the task waits for the run permit *)
+      else
+        match (if rstate_eqb (state s0) Paused then set_state s0 Running else Some (s0, [])) with
+        | Some (s1, o) => go s1 CBody o
+        | None => go s0 (CExit (XExn ETransition)) []
+        end
+  | PcCmd k =>
+      if cancelled then
+        go s0 (CCancelled true) []
+      else
+        match k with
+        | KReadCache rn d z =>
+            let '(s1, cr, o) := finish_read (mark_cached s0 rn d) rn d z [] in
+            let r := match cr with Done r => r | Susp _ => RVal VNone end in
+            go s1 (CContinue true r) (o ++ [OResp r])
+        | KSleep => go s0 (CContinue true (RVal VNone)) [OResp (RVal VNone)]
+        | KCkptSleep =>
+            let '(s1, e, o) := request_pause s0 false in
+            let r := match e with Some x => RExn x | None => RVal VNone end in
+            go s1 (CContinue true r) (o ++ [OResp r])
+        | KWait sids =>
+            go s0 (CContinue true (RVal (VBool true))) ((if all_resolved s0 sids then [] else [OBad 6]) ++ [OResp (RVal (VBool true))])
+        | KWaitFor fs =>
+            go s0 (CContinue true (RVal (VFuts (List.length fs)))) ((if all_released s0 fs then [] else [OBad 7]) ++ [OResp (RVal (VFuts (List.length fs)))])
+        end
+  | PcFinalSleep r =>
+      if cancelled then inr (finalize s0 r (Some ECancelled)) else inr (finalize s0 r None)
+  end.
+
+Lemma task_step_tentry s :
+  task_step s =
+  match tentry s with
+  | inl (s1, c1, os1) => drive (FUEL s1) s1 c1 os1
+  | inr r => r
+  end.
+Proof. unfold RE.task_step, tentry. cbv zeta. repeat break_goal; reflexivity. Qed.
+
+(* the task enters the interpreter only in configurations satisfying its invariant *)
+Lemma tentry_inv s res : Inv s -> tentry s = res -> dstep_post res.
+Proof.
+  intros HI H. unfold tentry in H. cbv zeta in H. unfold dstep_post.
   assert (A1 : pc_state_ok (pc s) (state s) = true) by apply HI.
   destruct (pc s) eqn:Epc.
-  - (* PcNone *) inversion H; subst. left; exact HI.
+  - (* PcNone *) subst res. exact HI.
   - (* PcNotStarted *)
     destruct (state s) eqn:Est; try discriminate A1. clear A1.
     unfold RE.set_state in H. simp_st. rewrite Est, allowed_idle_running in H.
-    repeat (bm_hyp H); tleaf.
+    repeat (bm_hyp H); dleaf.
   - (* PcPermit0 *)
     destruct (state s) eqn:Est; try discriminate A1. clear A1.
     unfold RE.set_state in H. simp_st. rewrite Est, allowed_idle_running in H.
-    repeat (bm_hyp H); tleaf.
+    repeat (bm_hyp H); dleaf.
   - (* PcSleep0 *)
-    repeat (bm_hyp H); tleaf.
+    repeat (bm_hyp H); dleaf.
   - (* PcPaused *)
     destruct (state s) eqn:Est; try discriminate A1; clear A1;
     simp_st; rewrite Est in H; ev_eqb_in H;
     unfold RE.set_state in H; simp_st; rewrite ?Est, ?allowed_paused_running in H;
-    repeat (bm_hyp H); tleaf.
+    repeat (bm_hyp H); dleaf.
   - (* PcCmd *)
     destruct (must_cancel s) eqn:Emc.
-    + tleaf.
-    + destruct k.
-      * tleaf.
+    + dleaf.
+    + destruct k as [| |sids|fs|rn dd z].
+      * dleaf.
       * destruct (request_pause (RE.set_must_cancel P D s false) false) as [[s1 e] o1] eqn:Erp.
-        apply request_pause_spec in Erp. destruct Erp as [Erp|Erp]; [|unfold pause_acc in Erp]; tleaf.
-      * tleaf.
-      * tleaf.
-      * pose proof (mark_cached_same (RE.set_must_cancel P D s false) run d) as Hmc.
-        set (sm := RE.mark_cached P D _ run d) in *. clearbody sm.
+        apply request_pause_spec in Erp. destruct Erp as [Erp|Erp]; [|unfold pause_acc in Erp]; dleaf.
+      * dleaf.
+      * dleaf.
+      * pose proof (mark_cached_same (RE.set_must_cancel P D s false) rn dd) as Hmc.
+        set (sm := RE.mark_cached P D _ rn dd) in *. clearbody sm.
         match type of H with
         | context [RE.finish_read P D ?a ?b ?c ?d ?e] =>
             destruct (RE.finish_read P D a b c d e) as [[s1 cr] o1] eqn:Efr
         end.
-        tleaf.
+        dleaf.
   - (* PcFinalSleep *)
     assert (Hal : allowed (state s) Idle = true) by (apply allowed_to_idle; left; exact A1).
-    destruct (must_cancel s) eqn:Emc;
-      (apply finalize_spec in H; [|simp_st; exact Hal]); unfold final_res in H; simp_st; left; fin.
-  - (* PcDone *) inversion H; subst. left; exact HI.
+    destruct (must_cancel s) eqn:Emc; subst res;
+      match goal with |- context [finalize ?a ?b ?c] => destruct (finalize a b c) as [s1 o1] eqn:Ef end;
+      (apply finalize_spec in Ef; [|simp_st; exact Hal]); unfold final_res in Ef; simp_st; fin.
+  - (* PcDone *) subst res. exact HI.
+Qed.
+
+Lemma task_step_inv s s' o : Inv s -> task_step s = (s', o) -> Inv s' \/ OOF s' o.
+Proof.
+  intros HI H. rewrite task_step_tentry in H. pose proof (tentry_inv s _ HI eq_refl) as Hp.
+  destruct (tentry s) as [[[s1 c1] os1]|[s2 o2]]; cbn [dstep_post] in Hp.
+  - eapply drive_inv; eassumption.
+  - inversion H; subst. left; exact Hp.
 Qed.
 
 (* ------------------------------------------------------------------ one event *)
@@ -876,6 +1170,7 @@ End WithEscape.
 (* ================================================================== consequences of [Inv] *)
 Section Consequences.
 Variable G : Prop.
+Hypothesis HG : pause_hook_ctl -> G.
 
 (* (I1) the pc determines the lifecycle state up to the requests that do not move the task *)
 Lemma inv_pc_state s : Inv G s -> pc_state_ok (pc s) (state s) = true.
@@ -970,6 +1265,43 @@ Proof.
   - apply allowed_to_idle; left; exact H1.
 Qed.
 
+(* every configuration the interpreter goes through when the task is resumed at an await point
+   of a state satisfying [Inv] satisfies [DInv] (fuel plays no role: [dreach] follows [dstep]) *)
+Definition visited (s : st) (cfg : st * ctl * list obs) : Prop :=
+  exists cfg0, tentry s = inl cfg0 /\ dreach cfg0 cfg.
+
+Lemma visited_DInv s s1 c1 os1 : Inv G s -> visited s (s1, c1, os1) -> DInv G c1 s1.
+Proof.
+  intros HI [[[sa ca] osa] [He Hr]].
+  assert (H0 : dstep_post G (inl (sa, ca, osa))) by (eapply tentry_inv; eassumption).
+  cbn [dstep_post] in H0.
+  exact (dreach_DInv G HG _ _ Hr H0).
+Qed.
+
+(* (I4), strong form: the assertion at the top of the loop body never fails *)
+Theorem no_assertion_exit s s1 os1 :
+  Inv G s -> visited s (s1, CBody, os1) ->
+  List.length (resps s1) = List.length (plans s1) /\
+  dstep s1 CBody os1 =
+  match stashed s1 with
+  | None => inr (RE.set_pc P D s1 PcSleep0, os1 ++ [OTask WSleep0])
+  | Some _ => inl (s1, CAfterSleep, os1)
+  end.
+Proof.
+  intros HI Hv. pose proof (visited_DInv _ _ _ _ HI Hv) as HD.
+  split; [apply HD|]. cbn [dstep]. rewrite (cbody_assert_holds s1 HD). reflexivity.
+Qed.
+
+(* (I1), strong form: whenever the interpreter runs the cleanup, the move to idle is accepted *)
+Theorem cleanup_always_accepted s s1 r pend os1 :
+  Inv G s -> visited s (s1, CFinalize r pend, os1) ->
+  allowed (state s1) Idle = true /\
+  state (fst (finalize s1 r pend)) = Idle /\ pc (fst (finalize s1 r pend)) = PcDone (final_res s1 r pend).
+Proof.
+  intros HI Hv. pose proof (visited_DInv _ _ _ _ HI Hv) as HD.
+  split; [apply allowed_to_idle; left; apply HD | exact (cleanup_reaches_idle_drive s1 r pend HD)].
+Qed.
+
 (* (I6) *)
 Lemma inv_interrupted_has_cause s : Inv G s -> interrupted s = true -> icause s <> None.
 Proof. intros HI; apply HI. Qed.
@@ -1049,6 +1381,25 @@ Theorem cleanup_never_stranded r pend :
   ~ In (OBad 1) oN -> pc sN = PcFinalSleep r ->
   state (fst (finalize sN r pend)) = Idle /\ pc (fst (finalize sN r pend)) = PcDone (final_res sN r pend).
 Proof. intros Hno. eapply cleanup_reaches_idle, reach_Inv, Hno. Qed.
+
+Lemma escape_hook : pause_hook_ctl -> escape s0 evs.
+Proof. intros H; left; exact H. Qed.
+
+(* whenever the task of a reachable state is resumed, in every configuration the interpreter
+   goes through: the loop-body assertion holds, and the cleanup's move to idle is accepted *)
+Theorem assertion_never_fails s1 os1 :
+  ~ In (OBad 1) oN -> visited sN (s1, CBody, os1) ->
+  List.length (resps s1) = List.length (plans s1).
+Proof. intros Hno Hv. eapply no_assertion_exit; [exact escape_hook | apply reach_Inv, Hno | exact Hv]. Qed.
+
+Theorem cleanup_never_refused s1 r pend os1 :
+  ~ In (OBad 1) oN -> visited sN (s1, CFinalize r pend, os1) ->
+  allowed (state s1) Idle = true /\ state (fst (finalize s1 r pend)) = Idle.
+Proof.
+  intros Hno Hv.
+  destruct (cleanup_always_accepted _ escape_hook _ _ _ _ _ (reach_Inv Hno) Hv) as (A & B & _).
+  split; assumption.
+Qed.
 
 Theorem interrupted_has_cause : ~ In (OBad 1) oN -> interrupted sN = true -> icause sN <> None.
 Proof. intros Hno. eapply inv_interrupted_has_cause, reach_Inv, Hno. Qed.
